@@ -85,6 +85,34 @@ Next ==
   \/ \E stop \in 0..MaxItems : DoEnum(stop)
 Spec == Init /\ [][Next]_vars
 
+(* random walks for the replay on the real code: ONE successor per step *)
+CallsOf(o) ==
+  CASE o = "dnew" -> {[op |-> o, a |-> iv, b |-> 0, c |-> 0, d |-> 0] : iv \in Ivs}
+    [] o = "dadd" -> {[op |-> o, a |-> k, b |-> f, c |-> 0, d |-> 0] : k \in Keys, f \in {0, 0, 0, 1}}
+    [] o \in {"dget", "dget0"} -> {[op |-> o, a |-> k, b |-> 0, c |-> 0, d |-> 0] : k \in Keys}
+    [] o = "dfree" -> {[op |-> o, a |-> i, b |-> 0, c |-> 0, d |-> 0] : i \in 0..MaxItems}
+    [] o = "dset" -> {[op |-> o, a |-> i, b |-> vu, c |-> u, d |-> inc] : i \in 1..MaxItems, vu \in {now - 1, now, now + 1}, u \in {0, 1}, inc \in {0, 1}}
+    [] o = "denum" -> {[op |-> o, a |-> i, b |-> 0, c |-> 0, d |-> 0] : i \in 0..MaxItems}
+    [] OTHER -> {[op |-> o, a |-> 0, b |-> 0, c |-> 0, d |-> 0]}
+Do(c) ==
+  CASE c.op = "dnew" -> DoNew(c.a)
+    [] c.op = "dadd" -> DoAdd(c.a, c.b)
+    [] c.op = "dget" -> DoGet(c.a)
+    [] c.op = "dget0" -> DoGet0(c.a)
+    [] c.op = "dfree" -> DoFree(c.a)
+    [] c.op = "dset" -> DoSet(c.a, c.b, c.c, c.d)
+    [] c.op = "dclean" -> DoClean
+    [] c.op = "dtick" -> DoTick
+    [] c.op = "denum" -> DoEnum(c.a)
+    [] c.op = "ddestroy" -> DoDestroy
+OpNames == {"dnew", "dadd", "dadd2", "dget", "dget0", "dfree", "dset", "dset2", "dclean", "dtick", "denum", "ddestroy"}
+Canon(o) == CASE o = "dadd2" -> "dadd" [] o = "dset2" -> "dset" [] OTHER -> o     \* adds and writes twice as likely
+EnabledCalls(o) == {c \in CallsOf(Canon(o)) : ENABLED Do(c)}
+SimNext ==
+  \E o \in {RandomElement({x \in OpNames : EnabledCalls(x) # {}})} :
+    \E c \in {RandomElement(EnabledCalls(o))} : Do(c)
+SimSpec == Init /\ [][SimNext]_vars
+
 Inv == DcInv(dc) /\ (~dc.alive => dc.live = {})
 PostOK == bad = {}
 EmitInv == Emit => PrintT(ToJson([lvl |-> TLCGet("level"), ev |-> ev, st |-> DProj(dc, now)]))
